@@ -33,6 +33,11 @@ def run(R, ctx):
     purity(R, ctx)
     one_now(R, ctx)
     message_once(R, ctx)
+    # 'the bytes of ITS configured format function': each duplicate stream and the file/writer output are rendered with the format
+    # function configured for that stream (duplication table shared with R13.3)
+    R.rule('R20.5', 'each output stream is rendered with its own configured format function (shared with R13.3)')
+    import c13 as _c13
+    _c13.duplication(_c13._Relabel(R, 'R13.3', 'R20.5'), ctx)
 
 
 class _Suffix:
